@@ -145,3 +145,33 @@ pub mod errors;
 pub mod job;
 
 mod flag;
+
+/// Verification seam: lets a harness substitute a simulated child process.
+#[cfg(all(watchexec_verif, not(test)))]
+#[allow(missing_docs, clippy::type_complexity)]
+pub mod verif {
+	use std::{cell::RefCell, sync::Arc};
+
+	use process_wrap::tokio::{TokioChildWrapper, TokioCommandWrap};
+
+	use crate::command::Command;
+
+	pub type Factory = Box<
+		dyn FnMut(&Arc<Command>, &mut TokioCommandWrap) -> std::io::Result<Box<dyn TokioChildWrapper>>,
+	>;
+
+	thread_local! {
+		static FACTORY: RefCell<Option<Factory>> = const { RefCell::new(None) };
+	}
+
+	pub fn set_factory(f: Option<Factory>) {
+		FACTORY.with(|c| *c.borrow_mut() = f);
+	}
+
+	pub(crate) fn spawn_override(
+		c: &Arc<Command>,
+		s: &mut TokioCommandWrap,
+	) -> Option<std::io::Result<Box<dyn TokioChildWrapper>>> {
+		FACTORY.with(|f| f.borrow_mut().as_mut().map(|f| f(c, s)))
+	}
+}
